@@ -8,6 +8,10 @@ def as_text(v):
         return 'TRUE' if v else 'FALSE'
     if isinstance(v, int):
         return str(v)
+    if isinstance(v, float):
+        # whole numbers have no decimal point; other floats are only passed
+        # where repr() and Excel agree (short decimals)
+        return str(int(v)) if v.is_integer() else repr(v)
     return v
 
 
